@@ -166,7 +166,7 @@ NoneOverdue == \A id \in DOMAIN q : q[id].st = "inflight" => now < q[id].dhi
 Inflight == {id \in DOMAIN q : q[id].st = "inflight"}
 HintSound(us, maxms) ==
   /\ (Inflight # {} => us >= 0)
-  /\ \A id \in Inflight : us <= Max(q[id].dhi - now, 0) * 1000
+  /\ \A id \in Inflight : q[id].dhi < Sat => us <= Max(q[id].dhi - now, 0) * 1000     \* dhi = Sat: deadline not modelled (TCP)
   /\ (maxms > 0 /\ us >= 0 => us <= maxms * 1000)
   /\ (Inflight = {} => (IF maxms > 0 THEN us = maxms * 1000 ELSE us = -1))
 =============================================================================
